@@ -92,6 +92,10 @@ package runtime
 //@ ensures [C15:once] calls(WW) <= 1 && (calls(WW) == 1 ==> recv(WW,0) == writer && result == ret(WW,0,1))
 //@ ensures [C15:json] calls(WJ) == 1 && ret(WJ,0,1) != nil ==> result == ret(WJ,0,1) && calls(WW) == 0
 //@ ensures [C15:jsonbytes] calls(WJ) == 1 && ret(WJ,0,1) == nil ==> calls(WW) == 1 && arg(WW,0,0) == ret(WJ,0,0)
+//@ watch IND = call reflect.Indirect
+//@ watch VS = call (reflect.Value).String
+//@ spec plainText() := writer != nil && data != nil && !implements(data, "encoding.TextMarshaler") && !implements(data, "error") && !implements(data, "fmt.Stringer")
+//@ ensures [C15:textkinds] plainText() ==> calls(IND) == 1 && (!rvValid(ret(IND,0,0)) ==> result != nil && calls(WW) == 0 && calls(WJ) == 0) && (rvValid(ret(IND,0,0)) && (rvKind(ret(IND,0,0)) == 25 || rvKind(ret(IND,0,0)) == 23) ==> calls(WJ) == 1 && arg(WJ,0,0) == data && calls(VS) == 0) && (rvValid(ret(IND,0,0)) && rvKind(ret(IND,0,0)) == 24 ==> calls(WJ) == 0 && calls(VS) == 1 && arg(VS,0,0) == ret(IND,0,0) && calls(WW) == 1) && (rvValid(ret(IND,0,0)) && rvKind(ret(IND,0,0)) != 25 && rvKind(ret(IND,0,0)) != 23 && rvKind(ret(IND,0,0)) != 24 ==> result != nil && calls(WW) == 0 && calls(WJ) == 0)
 
 // the deferred closer of the byte-stream codecs: runs the selected closer exactly once
 //@ func ByteStreamConsumer$1$1
@@ -149,6 +153,15 @@ package runtime
 //@ ensures [C15:marshaler] writer != nil && data != nil && !implements(data, "io.WriterTo") && !implements(data, "io.Reader") && implements(data, "encoding.BinaryMarshaler") ==> calls(MB) == 1 && recv(MB,0) == data && (ret(MB,0,1) != nil ==> result == ret(MB,0,1) && calls(WW) == 0) && (ret(MB,0,1) == nil ==> calls(WW) == 1 && arg(WW,0,0) == ret(MB,0,0) && result == ret(WW,0,1))
 //@ ensures [C15:once] calls(WW) <= 1 && (calls(WW) == 1 ==> recv(WW,0) == writer && result == ret(WW,0,1))
 //@ ensures [C15:json] calls(WJ) == 1 && ret(WJ,0,1) != nil ==> result == ret(WJ,0,1) && calls(WW) == 0
+//@ watch IND = call reflect.Indirect
+//@ watch VB = call (reflect.Value).Bytes
+//@ watch VS = call (reflect.Value).String
+//@ watch TE = invoke (reflect.Type).Elem
+//@ mayabsent TE
+//@ spec plainBytes() := writer != nil && data != nil && !implements(data, "io.WriterTo") && !implements(data, "io.Reader") && !implements(data, "encoding.BinaryMarshaler") && !implements(data, "error")
+//@ spec vkind() := rvKind(ret(IND,0,0))
+//@ ensures [C15:bytekinds] plainBytes() ==> calls(IND) == 1 && (!rvValid(ret(IND,0,0)) ==> result != nil && calls(WW) == 0 && calls(WJ) == 0) && (rvValid(ret(IND,0,0)) && vkind() == 24 ==> calls(VS) == 1 && calls(WW) == 1 && calls(WJ) == 0 && calls(VB) == 0) && (rvValid(ret(IND,0,0)) && vkind() == 25 ==> calls(WJ) == 1 && arg(WJ,0,0) == data && calls(VB) == 0 && calls(VS) == 0) && (rvValid(ret(IND,0,0)) && vkind() != 23 && vkind() != 24 && vkind() != 25 ==> result != nil && calls(WW) == 0 && calls(WJ) == 0)
+//@ ensures [C15:byteslice] plainBytes() && rvValid(ret(IND,0,0)) && vkind() == 23 ==> (calls(VB) == 1 ==> calls(WW) == 1 && arg(WW,0,0) == ret(VB,0,0) && arg(VB,0,0) == ret(IND,0,0) && calls(WJ) == 0) && (calls(VB) == 0 ==> calls(WJ) == 1 && arg(WJ,0,0) == data)
 
 // ---------------------------------------------------------------- json.go, xml.go (C15): which library codec runs, with which options
 
